@@ -59,6 +59,14 @@ TABLE = {
 }
 
 
+GATE_NOTE = (' A violation located in a function that was rewritten '
+             'wholesale (>= 11 distinct canonical statements and >= 35 % of '
+             'them differ from the pinned form, or newly written with '
+             'match / itertools / functools idioms or a new generator '
+             'helper) is not believed: the run answers ANALYSIS-ERROR '
+             '"undecided" (exit 2), never VIOLATION (DESIGN.md 10.9).')
+
+
 def main():
     root = Path(__file__).resolve().parent.parent
     extra = json.loads((root / 'tools' / 'manifest_table.json').read_text()) \
@@ -85,7 +93,7 @@ def main():
                     'text': t['text'],
                     'design_ref': 'DESIGN.md section ' + t['ref'],
                 },
-                'level_note': t['note'],
+                'level_note': t['note'] + GATE_NOTE,
                 'technique': 'static analysis: ' + t['tech'],
             })
         else:
@@ -123,7 +131,9 @@ def main():
                  'listed known findings (KNOWN-FINDING lines); 1 + VIOLATION '
                  'line = an obligation failed that known_findings.json does '
                  'not list; 2 + ANALYSIS-ERROR = anchors vanished / instance '
-                 'floors not met / checker crashed (never a verdict). '
+                 'floors not met / code rewritten beyond what the rules '
+                 'recognise ("undecided") / checker crashed (never a '
+                 'verdict). '
                  'fix: commits in /repo are recorded as fixed entries in '
                  'known_findings.json / known_findings.txt.',
     }
